@@ -64,7 +64,8 @@ where
     }
 
     pub(crate) fn take_bytes(self, limit: usize) -> Result<Vec<u8>> {
-        let mut output = Vec::with_capacity(limit);
+        // `limit` comes from the file, so do not reserve it up front.
+        let mut output = Vec::new();
         self.input.take(limit as u64).read_to_end(&mut output)?;
         if output.len() != limit {
             Err(AsepriteParseError::InvalidInput(format!(
